@@ -306,6 +306,7 @@ pub struct World {
     link: [VecDeque<Message>; 2],
     out: Vec<u64>,
     pending_deliver: Option<usize>,
+    pending_deliver_all: Option<(usize, u64)>,
     bridges: Vec<BridgeInst>,
 }
 
@@ -319,7 +320,7 @@ const K_NEXTBIND: u64 = 7;
 
 impl World {
     pub fn new(a: &Cfg, b: &Cfg) -> Self {
-        let mut w = Self { eps: [Ep::new(0, a), Ep::new(1, b)], link: [VecDeque::new(), VecDeque::new()], out: Vec::new(), pending_deliver: None, bridges: Vec::new() };
+        let mut w = Self { eps: [Ep::new(0, a), Ep::new(1, b)], link: [VecDeque::new(), VecDeque::new()], out: Vec::new(), pending_deliver: None, pending_deliver_all: None, bridges: Vec::new() };
         // first poll of both tasks (registers their wakers); nothing is emitted
         let mut done = Vec::new();
         w.settle(&mut done);
@@ -424,6 +425,16 @@ impl World {
         let mut res = res;
         let mut done = Vec::new();
         self.settle(&mut done);
+        if let Some((d, n)) = self.pending_deliver_all.take() {
+            // whatever the task did not take (receive side suspended, task ended) goes back to the link, in order
+            let rx = 1 - d;
+            let mut back: Vec<Message> = self.eps[rx].ws.lock().unwrap().inbox.drain(..).collect();
+            let left = back.len() as u64;
+            while let Some(m) = back.pop() {
+                self.link[d].push_front(m);
+            }
+            res = vec![0, n - left];
+        }
         if let Some(d) = self.pending_deliver.take() {
             // not consumed: the receive side is suspended; take the message back
             let rx = 1 - d;
@@ -648,6 +659,26 @@ impl World {
                 }
                 self.pending_deliver = Some(d);
                 Some(vec![0])
+            }
+            34 => {
+                // DeliverAll d: everything in flight on link d reaches endpoint 1-d before its task runs again
+                let d = *a.first()? as usize;
+                if self.link[d].is_empty() {
+                    return Some(vec![3]);
+                }
+                let rx = 1 - d;
+                let n = self.link[d].len() as u64;
+                {
+                    let mut s = self.eps[rx].ws.lock().unwrap();
+                    while let Some(m) = self.link[d].pop_front() {
+                        s.inbox.push_back(m);
+                    }
+                    if let Some(w) = s.rx_waker.take() {
+                        w.wake();
+                    }
+                }
+                self.pending_deliver_all = Some((d, n));
+                Some(vec![0, n])
             }
             33 => {
                 // DropDeliver e sid: the application drops the stream and the next inbound message
